@@ -399,6 +399,8 @@ class Ctx:
         if exhaustive is not None:
             cov["exhaustive"] = exhaustive
         cov.update(self.extra)
+        if self.level not in ("exploration", "fault_enumeration", "model_checking", "proof", "translation_validation", "other"):
+            self.level = "model_checking"
         ev = {
             "property_id": self.prop,
             "tier": self.tier,
